@@ -868,7 +868,82 @@ def c06_20(ctx):
     return out
 
 
+def c06_21(ctx):
+    """OP_CHECKMULTISIG succeeds exactly when each of the m signature slots holds a valid signature and the keys they belong to appear in
+    the script's key order: evaluated on every assignment of {valid for key 1..n, empty, garbage} to the m slots for 1 <= m <= n <= 3
+    (key parsing, signature parsing, the digest and ECDSA verification are stand-ins: a signature element names the key it is valid for)"""
+    import itertools
+    from sa.cells import Evaluator, Obj, Raised, Undecided
+    spec = "op:op_checkmultisig"
+    mod, fn = rl.get(ctx, spec)
+
+    def parse_sig(cls, der, *a, **k):
+        if isinstance(der, bytes) and der.startswith(b"SIG") and len(der) == 4:
+            return Obj("pecc", "Signature", {"key": der[3]})
+        raise Raised("ValueError")
+
+    def parse_key(cls, sec, *a, **k):
+        if isinstance(sec, bytes) and sec.startswith(b"PK"):
+            return Obj("pecc", "S256Point", {"id": sec[2]})
+        raise Raised("ValueError")
+    hooks = {("Signature", "parse"): parse_sig, ("S256Point", "parse"): parse_key, ("S256Point", "parse_sec"): parse_key,
+             ("S256Point", "verify"): lambda p, z, sig: z == ("z", 1) and isinstance(sig, Obj) and sig.attrs.get("key") == p.attrs.get("id"),
+             ("Tx", "sig_hash"): lambda tx, idx, hash_type=1, *a, **k: ("z", hash_type)}
+    cells = 0
+    for n in (1, 2, 3):
+        for m in range(1, n + 1):
+            options = [("key", i) for i in range(n)] + [("empty",), ("garbage",)]
+            for slots in itertools.product(options, repeat=m):
+                cells += 1
+                elems = [b"SIG" + bytes([s[1]]) + b"\x01" if s[0] == "key" else (b"" if s[0] == "empty" else b"\x30\x00\x01") for s in slots]
+                stack = [b""] + elems + [bytes([m])] + [b"PK" + bytes([i]) for i in range(n)] + [bytes([n])]
+                tx = Obj("tx", "Tx", {"tx_ins": [], "tx_outs": []})
+                try:
+                    r = Evaluator(ctx.repo, method_hooks=hooks).call(spec, [stack, tx, 0])
+                    ok = bool(r) and stack and stack[-1] not in (b"", b"\x00", b"\x80")
+                except Raised:
+                    ok = False
+                except Undecided as u:
+                    return [ctx.err(spec, "multisig check not evaluable for %d-of-%d, slots %s: %s" % (m, n, slots, u), fn, mod)]
+                keys = [s[1] for s in slots if s[0] == "key"]
+                want = len(keys) == m and all(a < b for a, b in zip(keys, keys[1:]))
+                if ok != want:
+                    shown = ", ".join("sig(key %d)" % (s[1] + 1) if s[0] == "key" else s[0] for s in slots)
+                    if ok:
+                        return [ctx.bad(spec, "%d-of-%d with signature slots [%s] succeeds: fewer than m valid signatures by distinct keys in key order are accepted" % (m, n, shown),
+                                        fn, mod, key="multisig-m-valid")]
+                    return [ctx.bad(spec, "%d-of-%d with signature slots [%s] fails although every slot holds a valid signature in key order" % (m, n, shown), fn, mod,
+                                    key="multisig-m-valid")]
+    ctx.count("cells", cells)
+    return [ctx.ok(spec, "succeeds exactly for m valid signatures in key order (%d slot assignments for 1 <= m <= n <= 3)" % cells, fn, mod, key="multisig-m-valid")]
+
+
+def c06_22(ctx):
+    """the public key a signing helper pushes is the encoding the output commits to: `hash160` of the compressed and of the uncompressed SEC
+    differ, and the library records which one a key uses in `private_key.compressed` (WIF carries it).  Each sign_p2pkh-style helper must
+    serialise the key with that flag; a fixed format makes every spend by a key of the other format fail OP_EQUALVERIFY"""
+    out = []
+    for spec in ("tx:Tx.sign_p2pkh", "tx:Tx.sign_p2wpkh", "tx:Tx.sign_p2sh_p2wpkh"):
+        mod, fn = rl.get(ctx, spec)
+        secs = [(n, c) for n, c in rl.find_calls(fn, "sec")]
+        if not secs:
+            out.append(ctx.err(spec, "no sec() call found: how the public key is serialised is not recognised", fn, mod))
+            continue
+        for n, c in secs:
+            args = list(c.args) + [k.value for k in c.keywords]
+            if args and any("attrname:compressed" in origins(fn, n.id, a) for a in args):
+                out.append(ctx.ok(spec, "public key serialised with the key's own `compressed` flag", c, mod, key="sec-format:" + spec.split(".")[-1]))
+            elif not args or all(isinstance(Folder(ctx.repo, mod.name).fold(a), bool) for a in args):
+                out.append(ctx.bad(spec, "`%s` always pushes one SEC format whatever `private_key.compressed` says: an output that commits to the hash160 of the other "
+                                         "format (an uncompressed-WIF key) is signed correctly and still reported invalid" % ast.unparse(c), c, mod, key="sec-format:" + spec.split(".")[-1]))
+            else:
+                out.append(ctx.err(spec, "format argument of `%s` not recognised" % ast.unparse(c), c, mod))
+    return out
+
+
 OBLIGATIONS = [
+    ("C06.22", "DATAFLOW key format", c06_22),
+    ("C06.21", "CELLS multisig", c06_21),
     ("C06.20", "CELLS witness program", c06_20),
     ("C06.19", "SHARED", c06_19),
     ("C06.18", "SET-ORDER", c06_18),
